@@ -428,7 +428,7 @@ func (ia *instAlphabet) enumerate(r *hx.Run, depth int, eager bool, label string
 	var nRun, nSkip atomic.Int64
 	var expired atomic.Bool
 	r.Parallel(n, func(i int) {
-		if i%256 == 0 && r.Expired() {
+		if i%256 == 0 && time.Now().After(familyDeadline) {
 			expired.Store(true)
 		}
 		if expired.Load() {
@@ -469,6 +469,8 @@ func (ia *instAlphabet) enumerate(r *hx.Run, depth int, eager bool, label string
 	return nRun.Load(), nSkip.Load(), !expired.Load()
 }
 
+var familyDeadline time.Time
+
 // instanceFamily is called once from main (before the replay dispatch: it replays its own cases).
 func instanceFamily(r *hx.Run, a *alphabet) {
 	twins := []string{"base-fresh", "base-fresh-twin(same-issuer-number-dates,other-entries)", "base+delta-fresh", "base+delta-fresh-twin(same-base,delta-same-number-other-entries)"}
@@ -503,11 +505,10 @@ func instanceFamily(r *hx.Run, a *alphabet) {
 		}
 		r.Finish()
 	}
-	// main installs the same deadline after this call; it is needed here already
+	// own time budget, so that this family (it runs first) never eats the time of the single-instance search
+	familyDeadline = time.Now().Add(20 * time.Second)
 	if r.Thorough() {
-		r.SetDeadline(9 * time.Minute)
-	} else {
-		r.SetDeadline(40 * time.Second)
+		familyDeadline = time.Now().Add(200 * time.Second)
 	}
 	type pass struct {
 		label   string
@@ -515,11 +516,11 @@ func instanceFamily(r *hx.Run, a *alphabet) {
 		replace []string
 		depth   int
 	}
-	// quick: 2 instances x 2 URLs x the four twin bundles, depth 4; thorough: the same to depth 5, and with two
-	// expired bundles added (as Set argument and as replacement file) to depth 4
+	// quick: 2 instances x 2 URLs x the four twin bundles, depth 4; thorough: depth 4 with two expired bundles added
+	// (as Set argument and as replacement file), and depth 5 over base-fresh and its twin
 	passes := []pass{{"twins", twins, twins[1:2], 4}}
 	if r.Thorough() {
-		passes = []pass{{"twins", twins, twins[1:2], 5}, {"twins+expired", wide, []string{twins[1], "base-expired", "base-fresh+delta-expired"}, 4}}
+		passes = []pass{{"twins+expired", wide, []string{twins[1], "base-expired", "base-fresh+delta-expired"}, 4}, {"base-fresh-and-twin", twins[:2], twins[1:2], 5}}
 	}
 	var evidence []map[string]any
 	for _, p := range passes {
